@@ -1,26 +1,169 @@
-(* C07 correspondence: cases written by harness/cmd/c07 are evaluated here by vm_compute. *)
+(* C07 correspondence: cases written by harness/cmd/c07 are evaluated here by vm_compute.
+
+   Small cases (CMesh / CBytes / CRead) carry every byte and are compared list against list.
+   Large cases (CBigFile / CBigMesh: up to ~20000 records, around the reader's chunk size and powers of two)
+   carry only the parameters of a synthetic input — both sides derive the same records from (n, seed, ...) —
+   and order-sensitive fingerprints (two polynomial hashes modulo 2^63 over Coq's machine integers) of what the
+   implementation returned; the fingerprints of the expected lists are computed here. *)
 From PF Require Export Base.Bytes Formats.Stl Check.Common.
+From Coq Require Import Uint63.
 Open Scope N_scope.
+
+(* what stl.ReadMesh returned on a large input: counts + fingerprints *)
+Record bigmesh := { b_nverts : N; b_nidx : N; b_idx_fp : Z * Z; b_pos_fp : Z * Z; b_nrm_fp : option (Z * Z) }.
 
 Inductive case :=
 | CMesh (idx : list nat) (pos : option (list vec)) (fns : list vec)
         (impl_bytes : list N) (impl_read : option rmesh)
 | CBytes (input : list N) (impl_out : option (list N))
-| CRead (input : list N) (impl_read : option rmesh).
+| CRead (input : list N) (impl_read : option rmesh)
+(* synthetic file of n records (zn: all stored normals zero), followed by [extra] trailing bytes or cut short by
+   [cut] bytes; in_fp: fingerprint of the uncut bytes the harness built (generator agreement);
+   rd: stl.Read -> (number of records, fp of header bytes ++ 13 words per record);
+   wr: stl.Write (stl.Read input) -> (number of bytes, fp of the bytes); rm: stl.ReadMesh input *)
+| CBigFile (n seed : N) (zn : bool) (extra cut : N) (in_fp : Z * Z)
+           (rd : option (N * (Z * Z))) (wr : option (N * (Z * Z))) (rm : option bigmesh)
+(* synthetic mesh: nv vertices, 3n + part indices, index j = (a*j + b*(j/3) + c) mod nv, every vertex normal the
+   axis direction ndir (None: no Normal attribute);
+   wr: stl.WriteMesh -> (number of bytes, fp of the bytes); rm: stl.ReadMesh of those bytes *)
+| CBigMesh (n nv a b c part seed : N) (ndir : option N)
+           (wr : option (N * (Z * Z))) (rm : option bigmesh).
 
 Definition bytes_eqb := list_eqb N.eqb.
 
-(* model vs implementation *)
+(* ---------- fingerprints ---------- *)
+Definition int_of_N (n : N) : int := match n with N0 => 0%uint63 | Npos p => of_pos p end.
+Definition fp0 : int * int := (0, 0)%uint63.
+Definition fp_step (h : int * int) (x : N) : int * int :=
+  let '(h1, h2) := h in
+  let v := (int_of_N x + 1)%uint63 in
+  ((h1 * 1000003 + v)%uint63, (h2 * 998244353 + v)%uint63).
+Definition fp_list (h : int * int) (l : list N) : int * int := fold_left fp_step l h.
+Definition fp_out (h : int * int) : Z * Z := (to_Z (fst h), to_Z (snd h)).
+Definition fp_eqb (a b : Z * Z) : bool := (fst a =? fst b)%Z && (snd a =? snd b)%Z.
+Definition fp (l : list N) : Z * Z := fp_out (fp_list fp0 l).
+
+Definition vec_words (v : vec) : list N := let '(x, y, z) := v in [x; y; z].
+Definition tri_words (t : tri) : list N :=
+  vec_words (tn t) ++ vec_words (ta t) ++ vec_words (tb t) ++ vec_words (tc t) ++ [tattr t].
+
+(* le32 / rec50 with shifts and masks instead of N division (20x faster under vm_compute);
+   StlBigProofs.rec50f_eq: rec50f t = rec50 t *)
+Definition le32f (w : N) : list N :=
+  [N.land w 255; N.land (N.shiftr w 8) 255; N.land (N.shiftr w 16) 255; N.land (N.shiftr w 24) 255].
+Definition le16f (w : N) : list N := [N.land w 255; N.land (N.shiftr w 8) 255].
+Definition vec12f (v : vec) : list N := let '(x, y, z) := v in le32f x ++ le32f y ++ le32f z.
+Definition rec50f (t : tri) : list N :=
+  vec12f (tn t) ++ vec12f (ta t) ++ vec12f (tb t) ++ vec12f (tc t) ++ le16f (tattr t).
+
+(* streamed: never materialises the byte list of a large file.
+   StlBigProofs.fp_file_spec: fp_file hdr ts extra = fp (write hdr ts ++ extra) *)
+Definition fp_recs (h : int * int) (ts : list tri) : int * int := fold_left (fun h t => fp_list h (rec50f t)) ts h.
+Definition fp_file (hdr : list N) (ts : list tri) (extra : list N) : Z * Z :=
+  fp_out (fp_list (fp_recs (fp_list (fp_list fp0 hdr) (le32f (N.of_nat (length ts)))) ts) extra).
+(* [write] through the fast encoders; StlBigProofs.writef_eq: writef hdr ts = write hdr ts *)
+Definition writef (hdr : list N) (ts : list tri) : list N :=
+  hdr ++ le32f (N.of_nat (length ts)) ++ flat_map rec50f ts.
+Definition fp_records (hdr : list N) (ts : list tri) : Z * Z :=
+  fp_out (fold_left (fun h t => fp_list h (tri_words t)) ts (fp_list fp0 hdr)).
+Definition fp_vecs (vs : list vec) : Z * Z := fp_out (fold_left (fun h v => fp_list h (vec_words v)) vs fp0).
+
+(* ---------- synthetic inputs (the harness computes the same in uint64 arithmetic) ---------- *)
+Fixpoint iota (k : nat) (a : N) : list N := match k with O => [] | S k' => a :: iota k' (a + 1) end.
+
+(* a finite, normal, non-zero float32 bit pattern: sign | exponent 120..135 | 23 mantissa bits, all simple
+   functions of v = 13 i + k + seed (shifts and masks only: N division is slow under vm_compute) *)
+Definition synth_word (seed i k : N) : N :=
+  let v := 13 * i + k + seed in
+  let mant := N.land (5 * v + N.shiftl v 9 + N.shiftl (N.land v 127) 16) 8388607 in
+  let ex := 120 + N.land (v + N.shiftr v 5) 15 in
+  let sg := N.land (N.shiftr v 2) 1 in
+  N.shiftl sg 31 + N.shiftl ex 23 + mant.
+Definition synth_vec (seed v : N) : vec := (synth_word seed v 0, synth_word seed v 1, synth_word seed v 2).
+Definition synth_tri (seed : N) (zn : bool) (i : N) : tri :=
+  {| tn := if zn then (if N.land i 1 =? 0 then vzero else (2147483648, 0, 2147483648)) else synth_vec seed (4 * i);
+     ta := synth_vec seed (4 * i + 1); tb := synth_vec seed (4 * i + 2); tc := synth_vec seed (4 * i + 3);
+     tattr := N.land (7 * i + seed) 65535 |}.
+Definition synth_tris (seed : N) (zn : bool) (n : N) : list tri := map (synth_tri seed zn) (iota (N.to_nat n) 0).
+Definition synth_hdr (seed : N) : list N := map (fun j => N.land (j * 11 + seed) 255) (iota 80 0).
+Definition synth_extra (seed k : N) : list N := map (fun j => N.land (j * 37 + seed) 255) (iota (N.to_nat k) 0).
+
+Definition idxf (nv a b c j : N) : N := (a * j + b * (j / 3) + c) mod nv.
+(* +-x, +-y, +-z as float32 words: the facet normal of a triangle whose three corner normals are that axis *)
+Definition axis (d : N) : vec :=
+  let one := 1065353216 in let mone := 3212836864 in
+  match d with
+  | 0 => (one, 0, 0) | 1 => (mone, 0, 0) | 2 => (0, one, 0) | 3 => (0, mone, 0) | 4 => (0, 0, one) | _ => (0, 0, mone)
+  end.
+Definition mesh_fn (ndir : option N) : vec := match ndir with Some d => axis d | None => vzero end.
+
+Definition word32b' (w : N) : bool := w <? 4294967296.
+Definition vec_okb (v : vec) : bool := let '(x, y, z) := v in word32b' x && word32b' y && word32b' z.
+Definition tri_okb (t : tri) : bool :=
+  vec_okb (tn t) && vec_okb (ta t) && vec_okb (tb t) && vec_okb (tc t) && (tattr t <? 65536).
+
+(* ---------- expected observables of a large ReadMesh result, from the records it should be made of ---------- *)
+Definition triple {A} (x : A) : list A := [x; x; x].
+Definition bigmesh_matches (ts : list tri) (m : bigmesh) : bool :=
+  let n := N.of_nat (length ts) in
+  (b_nverts m =? 3 * n) && (b_nidx m =? 3 * n)
+  && fp_eqb (b_idx_fp m) (fp (iota (3 * length ts) 0))
+  && fp_eqb (b_pos_fp m) (fp_vecs (flat_map (fun t => [ta t; tb t; tc t]) ts))
+  && opt_eqb fp_eqb (b_nrm_fp m)
+       (if existsb (fun t => negb (vec_zero (tn t))) ts
+        then Some (fp_vecs (flat_map (fun t => triple (tn t)) ts)) else None).
+
+Definition opt_none {A} (o : option A) : bool := match o with None => true | Some _ => false end.
+Definition opt_all {A} (f : A -> bool) (o : option A) : bool := match o with None => false | Some x => f x end.
+Definition opt_any {A} (f : A -> bool) (o : option A) : bool := match o with None => true | Some x => f x end.
+
+(* number of records a byte string announces *)
+Definition announced (input : list N) : option N := de_le32 (firstn 4 (skipn 80 input)).
+
+(* records of a large synthetic mesh, as the property describes them: corner j is vertex idxf j *)
+Definition bigmesh_tris (n nv a b c seed : N) (ndir : option N) : list tri :=
+  tris_from (N.to_nat n) 0 (fun _ => mesh_fn ndir) (fun j => synth_vec seed (idxf nv a b c j)).
+
+(* the model is executed on the materialised bytes of a large file up to this many records; beyond, the
+   model's answer is taken from the theorems read_write_trailing / read_prefix_rejected (StlProofs) *)
+Definition exec_limit : N := 4200.
+
+(* ---------- model vs implementation ---------- *)
 Definition corr_ok (c : case) : bool :=
   match c with
   | CMesh idx pos fns ib ir =>
       opt_eqb bytes_eqb (write_mesh idx pos fns) (Some ib) && opt_eqb rmesh_eqb (read_mesh ib) ir
   | CBytes input out =>
-      opt_eqb bytes_eqb (match read input with Some (h, ts) => Some (write h ts) | None => None end) out
+      opt_eqb bytes_eqb (match read_chunked stl_chunk input with Some (h, ts) => Some (write h ts) | None => None end) out
   | CRead input ir => opt_eqb rmesh_eqb (read_mesh input) ir
+  | CBigFile n seed zn extra cut in_fp rd wr rm =>
+      let hdr := synth_hdr seed in
+      let ts := synth_tris seed zn n in
+      let ex := synth_extra seed extra in
+      (* the harness built the same bytes; they are [write hdr ts ++ ex] with well-formed records *)
+      fp_eqb in_fp (fp_file hdr ts ex) && forallb tri_okb ts &&
+      (if n <=? exec_limit then
+         (* the model (chunked reader, chunk 4096) is executed on the materialised bytes *)
+         match read_chunked stl_chunk
+                 (firstn (84 + 50 * N.to_nat n + N.to_nat extra - N.to_nat cut) (writef hdr ts ++ ex)) with
+         | None => opt_none rd && opt_none wr && opt_none rm
+         | Some (h, ts') =>
+             opt_all (fun '(cnt, f) => (cnt =? N.of_nat (length ts')) && fp_eqb f (fp_records h ts')) rd
+             && opt_all (fun '(len, f) => (len =? 84 + 50 * N.of_nat (length ts')) && fp_eqb f (fp_file h ts' [])) wr
+             && opt_all (bigmesh_matches ts') rm
+         end
+       else
+         (* beyond exec_limit the model is not executed: by StlBigProofs.big_file_model its answer on these bytes
+            is Some (hdr, ts) (None when cut short), i.e. exactly what prop_ok compares the implementation with *)
+         true)
+  | CBigMesh n nv a b c part seed ndir wr rm =>
+      (* StlBigProofs.gather_tris_fun: gather_tris on the index list (map idxf) and position list (map synth_vec)
+         yields bigmesh_tris; the bytes are [write zero_hdr] of them; what ReadMesh returns is judged by prop_ok *)
+      let ts := bigmesh_tris n nv a b c seed ndir in
+      opt_all (fun '(len, f) => (len =? 84 + 50 * n) && fp_eqb f (fp_file zero_hdr ts [])) wr
   end.
 
-(* the property itself, evaluated on what the implementation returned (direct oracle) *)
+(* ---------- the property itself, evaluated on what the implementation returned (direct oracle) ---------- *)
 Definition prop_ok (c : case) : bool :=
   match c with
   | CMesh idx pos fns ib ir =>
@@ -31,16 +174,30 @@ Definition prop_ok (c : case) : bool :=
           let k := (3 * n)%nat in
           Nat.eqb (r_nverts m) k &&
           (Nat.eqb n 0 || (list_eqb Nat.eqb (r_idx m) (seq 0 k)
-                           && list_eqb vec_eqb (r_pos m) (map (fun i => nth i p vzero) (firstn k idx))))
+                           && list_eqb vec_eqb (r_pos m) (map (fun i => nth i p vzero) (firstn k idx))
+                           (* every corner carries the facet normal stored for its triangle (its value is judged
+                              by the harness against the normalised mean); no normals stored: no Normal attribute *)
+                           && opt_eqb (list_eqb nrm_eqb) (r_nrm m)
+                                (if existsb (fun f => negb (vec_zero f)) fns
+                                 then Some (flat_map (fun f => triple (vec_nrm f)) fns) else None)))
       | Some m, None => Nat.eqb (r_nverts m) 0
       | None, _ => false
       end
   | CBytes input out =>
-      (* well-formed input of exact length: Write (Read b) = b *)
-      match out with Some o => bytes_eqb o input | None => false end
+      (* complete file: Write (Read b) = b; trailing bytes (not a well-formed file): if accepted, the announced
+         records are reproduced; truncated: rejected *)
+      match announced input with
+      | Some n =>
+          let want := 84 + 50 * n in
+          let len := N.of_nat (length input) in
+          if len <? want then opt_none out
+          else if len =? want then opt_all (fun o => bytes_eqb o input) out
+          else opt_any (fun o => bytes_eqb o (firstn (N.to_nat want) input)) out
+      | None => opt_none out
+      end
   | CRead input ir =>
       (* complete file: 3n vertices with identity indices; truncated file: rejected *)
-      match de_le32 (firstn 4 (skipn 80 input)) with
+      match announced input with
       | Some n => if (N.of_nat (length input) <? 84 + 50 * n)
                   then match ir with None => true | Some _ => false end
                   else match ir with
@@ -48,4 +205,17 @@ Definition prop_ok (c : case) : bool :=
                        | None => false end
       | None => match ir with None => true | Some _ => false end
       end
+  | CBigFile n seed zn extra cut in_fp rd wr rm =>
+      let hdr := synth_hdr seed in
+      let ts := synth_tris seed zn n in
+      (* same n records in order; the rewritten file is the 84 + 50 n bytes of header, count and records *)
+      let rd_ok := fun '(cnt, f) => (cnt =? n) && fp_eqb f (fp_records hdr ts) in
+      let wr_ok := fun '(len, f) => (len =? 84 + 50 * n) && fp_eqb f (fp_file hdr ts []) in
+      let rm_ok := bigmesh_matches ts in
+      if 0 <? cut then opt_none rd && opt_none wr && opt_none rm
+      else if extra =? 0 then opt_all rd_ok rd && opt_all wr_ok wr && opt_all rm_ok rm
+      else opt_any rd_ok rd && opt_any wr_ok wr && opt_any rm_ok rm
+  | CBigMesh n nv a b c part seed ndir wr rm =>
+      opt_all (fun '(len, _) => len =? 84 + 50 * n) wr
+      && opt_all (bigmesh_matches (bigmesh_tris n nv a b c seed ndir)) rm
   end.
